@@ -226,6 +226,36 @@ def ambiguous_assembly(rng):
     return asm
 
 
+def ambiguous_row(rng):
+    """A row of 4..6 boxes whose two end boxes carry chops of equal count and different expansion in one direction
+    across the row: with two or more unchopped boxes between them, which donor a middle box copies from depends on
+    the order in which the worklist of undefined blocks is swept."""
+    n = rng.randint(4, 6)
+    d = rng.randrange(3)
+    cells = [tuple(i if k == d else 0 for k in range(3)) for i in range(n)]
+    perms = [rng.choice(gc.ROT24) for _ in cells]
+    order = list(range(n))
+    if rng.random() < 0.5:
+        rng.shuffle(order)
+    asm = gc.Assembly(cells, perms, {}, {}, order)
+    done = False
+    for fam in gc.families(asm):
+        blocks = sorted({x[0] for x in fam})
+        if len(blocks) == 1:
+            asm.chops[fam[0]] = [dict(count=rng.choice([1, 2, 3]))]
+            continue
+        first = [x for x in fam if x[0] == 0][0]
+        last = [x for x in fam if x[0] == n - 1][0]
+        if not done:
+            asm.chops[first] = [dict(count=10, total_expansion=4.0)]
+            asm.chops[last] = [dict(count=10, total_expansion=0.25)]
+            done = True
+        else:
+            asm.chops[rng.choice([first, last])] = [dict(count=rng.choice([2, 3]))]
+    asm.mode = "ambiguous-row"
+    return asm
+
+
 class C02(Prop):
     pid = "C02"
     prebuilt = gc.PREBUILT + ["Proofs/PropagateOrder.v"]
@@ -299,7 +329,8 @@ class C02(Prop):
                 res.oracle_failures.append(dict(kind="order", assembly=asm.to_json(), assembly2=asm2.to_json(), why=why))
         if not res.error:
             self.sandwich(ctx, res)
-        determinism_probe(ctx, res, [ambiguous_assembly(ctx.rng) for _ in range(ctx.n(4, 40))], 8)
+        determinism_probe(ctx, res, [ambiguous_assembly(ctx.rng) for _ in range(ctx.n(4, 40))]
+                          + [ambiguous_row(ctx.rng) for _ in range(ctx.n(3, 20))], 8)
         return res
 
     def sandwich(self, ctx, res):
